@@ -27,7 +27,8 @@ CONSTANTS NH,      \* number of handles
           Hdr,     \* header size inside an allocation (64)
           PChunk,  \* printf work chunk (64)
           MaxLen,  \* largest content length explored
-          MaxArg   \* largest offset/length argument offered
+          MaxArg,  \* largest offset/length argument offered
+          Prune    \* TRUE: representative arguments only for type refusals (export)
 
 VARIABLES val, vtyp,         \* Tier 1
           rec, share,        \* Tier 2
@@ -441,25 +442,49 @@ Types  == {"raw", "c", "n"}
 TTypes == {"c", "n"}
 Data(n, z) == IF z = 1 THEN Zeros(n) ELSE Fresh(n)
 
+\* Prune = TRUE (behaviour export): handle 1 is the actor of every call except
+\* new/clone (handles are symmetric; the others observe and share); calls refused
+\* for a content-type reason are offered with one representative argument set;
+\* flagged buffers are made through handle 1 (others obtain them by cloning).
+TypeOk1(h, t)  == rec[h].typ \in {"none", t}
 Next ==
-  \E h \in H :
-     \/ \E n \in 0..MaxArg, imm \in BOOLEAN, nc \in BOOLEAN, t \in Types : New(h, Fresh(n), imm, nc, t)
-     \/ \E n \in 0..MaxArg, z \in {0, 1} : (z = 1 => n > 0) /\ ArrAppend(h, Data(n, z), z)
-     \/ \E pos \in 0..MaxArg, n \in 0..MaxArg, v \in {0, 1} : Insert(h, pos, Fresh(n), v)
-     \/ \E t \in TTypes, n \in 0..MaxArg, off \in (-2)..MaxArg, z \in {0, 1} : (z = 1 => n > 0) /\ SetTyped(h, t, Data(n, z), off, z)
-     \/ \E off \in 0..MaxArg, n \in 0..MaxArg, f \in {0, 1} : (f = 0 => n > 0) /\ Slice(h, off, IF f = 1 THEN Fresh(n) ELSE Zeros(n), f)
-     \/ \E n \in 0..MaxArg, t \in Types, v \in {0, 1} : Reserve(h, n, t, v)
+  \E h \in H : LET A == (Prune => h = 1) IN
+     \/ \E n \in 0..MaxArg, imm \in BOOLEAN, nc \in BOOLEAN, t \in Types :
+           /\ Prune => ((imm \/ nc) => h = 1)
+           /\ (Prune /\ h # 1) => n = 1
+           /\ New(h, Fresh(n), imm, nc, t)
+     \/ \E n \in 0..MaxArg, z \in {0, 1} :
+           /\ A /\ (z = 1 => n > 0)
+           /\ (Prune /\ rec[h].typ \notin {"none", "raw"}) => (n = 1 /\ z = 0)
+           /\ ArrAppend(h, Data(n, z), z)
+     \/ \E pos \in 0..MaxArg, n \in 0..MaxArg, v \in {0, 1} : A /\ Insert(h, pos, Fresh(n), v)
+     \/ \E t \in TTypes, n \in 0..MaxArg, off \in (-2)..MaxArg, z \in {0, 1} :
+           /\ A /\ (z = 1 => n > 0)
+           /\ (Prune /\ ~TypeOk1(h, t)) => (n = ESize(t) /\ off = 0 /\ z = 0)
+           /\ SetTyped(h, t, Data(n, z), off, z)
+     \/ \E off \in 0..MaxArg, n \in 0..MaxArg, f \in {0, 1} :
+           /\ A /\ (f = 0 => n > 0)
+           /\ Slice(h, off, IF f = 1 THEN Fresh(n) ELSE Zeros(n), f)
+     \/ \E n \in 0..MaxArg, t \in Types, v \in {0, 1} :
+           /\ A /\ ((Prune /\ rec[h].typ # t) => n \in {0, MaxArg})
+           /\ Reserve(h, n, t, v)
      \/ \E g \in 0..NH : g # h /\ Clone(h, g)
-     \/ Reduce(h)
-     \/ \E n \in 0..MaxArg : Printf(h, Fresh(n))
-     \/ String(h)
+     \/ A /\ Reduce(h)
+     \/ \E n \in 0..MaxArg :
+           /\ A /\ ((Prune /\ ~TypeOk1(h, "c")) => n = 1)
+           /\ Printf(h, Fresh(n))
+     \/ A /\ String(h)
      \/ \E off \in 0..Used(h), len \in 0..Used(h), nblk \in 0..MaxArg, esz \in 1..2, z \in {0, 1} :
-           /\ nblk * esz <= MaxArg /\ off + len <= Used(h) /\ (z = 1 => nblk > 0)
+           /\ A /\ nblk * esz <= MaxArg /\ off + len <= Used(h) /\ (z = 1 => nblk > 0)
+           /\ (Prune /\ rec[h].typ \notin {"none", "raw"}) => (off = 0 /\ len = 0 /\ nblk = 1 /\ esz = 1 /\ z = 0)
            /\ LET c == SWKeep(h, off, len, esz, nblk) IN
               SliceWrite(h, off, len, nblk, esz, Data(nblk * esz, z), z, c.k, c.compact, c.realloc)
-     \/ \E pos \in 0..MaxArg, n \in 0..MaxArg : BufInsert(h, pos, Fresh(n))
-     \/ \E off \in 0..MaxArg, n \in 0..MaxArg : BufCut(h, off, n)
-     \/ \E t \in Types, pos \in 0..MaxArg, n \in 0..MaxArg, z \in {0, 1} : (z = 1 => n > 0) /\ BufSet(h, t, pos, Data(n, z), z)
+     \/ \E pos \in 0..MaxArg, n \in 0..MaxArg : A /\ BufInsert(h, pos, Fresh(n))
+     \/ \E off \in 0..MaxArg, n \in 0..MaxArg : A /\ BufCut(h, off, n)
+     \/ \E t \in Types, pos \in 0..MaxArg, n \in 0..MaxArg, z \in {0, 1} :
+           /\ A /\ (z = 1 => n > 0)
+           /\ (Prune /\ rec[h].typ # t) => (pos = 0 /\ n = ESize(t) /\ z = 0)
+           /\ BufSet(h, t, pos, Data(n, z), z)
 
 Spec == Init /\ [][Next]_vars
 
